@@ -461,6 +461,12 @@ func (lex *ExprLexer) lexChar(k TokenKind) *Token {
 // before the first call of this method. This method is stateful. Lexer advances offset by lexing
 // token. To get the offset, use Offset() method.
 func (lex *ExprLexer) Next() *Token {
+	// text/scanner silently discards a byte order mark at the head of the source. It is not a part
+	// of the expression syntax
+	if lex.scan.Pos().Offset == 0 && strings.HasPrefix(lex.src, "\uFEFF") {
+		return lex.unexpected('\uFEFF', "expression", expectedAllChars)
+	}
+
 	lex.skipWhite()
 
 	r := lex.scan.Peek()
